@@ -58,7 +58,7 @@ type c11Input struct {
 	// rush
 	Subs   int    `json:"subs,omitempty"`   // subscribers (unbuffered channels, read only after Close returned)
 	Bcasts int    `json:"bcasts,omitempty"` // Broadcast calls (at most 10: nothing may block)
-	Mode   string `json:"mode,omitempty"`   // seq: one goroutine calls Subscribe.., Broadcast.., Close back to back; par: every call on its own goroutine, released together
+	Mode   string `json:"mode,omitempty"`   // uni: like seq but on ONE processor, the other Close calls spawned just before the goroutine's own Close, buffered subscriber channels counted when the first Close returns; seq: one goroutine calls Subscribe.., Broadcast.., Close back to back; par: every call on its own goroutine, released together
 	Reps   int    `json:"reps,omitempty"`   // repetitions (stops at the first late delivery)
 	Closes int    `json:"closes,omitempty"` // rush: number of Close calls (default 1); conc: Close calls issued meanwhile from their own goroutines (default 0)
 	// dup
@@ -478,8 +478,8 @@ func c11RunConc(ctx *core.Ctx, in c11Input, kind string) error {
 }
 
 func c11RunRush(ctx *core.Ctx, in c11Input, kind string) error {
-	if in.Subs < 1 || in.Subs > 16 || in.Bcasts < 0 || in.Bcasts > 10 || in.Reps < 1 || in.Reps > 100000 ||
-		(in.Mode != "seq" && in.Mode != "par") || in.Closes < 0 || in.Closes > 8 {
+	if in.Subs < 1 || in.Subs > 64 || in.Bcasts < 0 || in.Bcasts > 10 || in.Reps < 1 || in.Reps > 100000 ||
+		(in.Mode != "seq" && in.Mode != "par" && in.Mode != "uni") || in.Closes < 0 || in.Closes > 8 {
 		return fmt.Errorf("rush: parameters out of range")
 	}
 	r := c11ExecRush(in)
